@@ -20,7 +20,7 @@ func init() {
 		Title: "Node sorters order by their keys",
 		Run:   runC19,
 		Meta: core.PropertyMeta{
-			Explanation: "S1: every package-level sort key of the sorter's func type is lifted from the AST into a decision over abstract projections of its two arguments and checked exhaustively (3 elements over a 3-valued ordered / 2-valued boolean abstract domain) for irreflexivity, asymmetry, transitivity and transitivity of incomparability, i.e. that it is a strict weak order usable in any position. S2: MultiSorter.Less is checked on SSA to return true exactly under less(p,q), false exactly under less(q,p) inside the loop over all keys but the last (induction variable from 0 by 1, bound len-1), and the last key's less(p,q) after it, with p,q the i-th and j-th element of the sorted slice. S3: Sort stores its argument before calling sort.Sort on the receiver, Swap exchanges exactly elements i and j, Len is the slice length, nothing else writes the slice.",
+			Explanation: "S1: every package-level sort key of the sorter's func type is lifted from the AST into a decision over abstract projections of its two arguments and checked exhaustively (3 elements over a 3-valued ordered / 2-valued boolean abstract domain) for irreflexivity, asymmetry, transitivity and transitivity of incomparability, i.e. that it is a strict weak order usable in any position. S2: MultiSorter.Less is checked on SSA to return true exactly under less(p,q), false exactly under less(q,p) inside the loop over all keys but the last (induction variable from 0 by 1, bound len-1), and the last key's less(p,q) after it, with p,q the i-th and j-th element of the sorted slice. S3: Sort stores its argument before calling sort.Sort on the receiver, Swap exchanges exactly elements i and j, Len is the slice length, nothing else writes the slice. S7: the empty key sequence is handled (the final comparison is reached only when there is a key; Less answers false otherwise).",
 			NotDecided:  "sort.Sort itself (trusted); OrderedBy() with no key; user-defined keys.",
 			Trusted:     append([]string{"sort.Sort sorts by the Less/Swap/Len it is given"}, commonTrust...),
 		},
